@@ -89,6 +89,15 @@ def run(ctx):
         loop.close()
         shutil.rmtree(tmp, ignore_errors=True)
     ctx.sample({"canonical": canon_outputs[0][0]})
+    # ---- curated inputs whose canonical text exercises corner cases of the strict profile (regressions of repaired defects:
+    #      a bare `//` comment must not become `// ` with a trailing blank, 3fa2dc1) ----
+    CURATED = ["===D===\n//\nK::1\n===END===\n", "===D===\nB:\n  //\n  K::1\n  //\n===END===\n", "===D===\nK::1\n//\n===END===\n",
+               "===D===\n\u00a71::S\n  //\n  K::[a,b,c] //\n===END===\n", "K::1 //   \n//\t\n", "===D===\nMETA:\n  TYPE::X\n  //\n---\n//\nK::1\n===END===\n"]
+    for t in CURATED:
+        c1, doc, err = doccases.canon_impl(t)
+        ctx.count()
+        if err is None:
+            canon_outputs.append((c1, {"curated_text": t}, []))
     # ---- strict profile of every canonical output ----
     if hm:
         res = run_driver("syn", ["strict " + enc_str(c) for c, _, _ in canon_outputs])
